@@ -301,7 +301,7 @@ SPEC_C10_MACHINE = MachineSpec("C10", T.p_C10, P_PLANS.with_(w_ops=dict(plan_app
                                extra=lambda tier: plan_enumeration(tier))
 
 # ---------------------------------------------------------------------------------------------- unit-level
-from . import unitcheck
+from . import unitcheck, leaf
 
 def check_C13(run):
     rng = run.rng; q = run.tier == "quick"
@@ -567,6 +567,7 @@ CHECKS["C17"] = check_C17
 def run_check(pid, tier, seed):
     run = Run(pid, tier, seed)
     run.proof = proofs.check_property(pid, tier=tier) if pid not in ("C17",) else None
+    if not os.environ.get("VERIF_WARM"): leaf.check(run)          # the source tie of the leaf layer (C08, C09, C12, C13, C20)
     info = CHECKS[pid](run)
     run.extra.update({k: v for k, v in info.items() if k not in ("rule", "explanation")})
     level = info.get("level", "proof")
